@@ -10,6 +10,7 @@ import (
 	"errors"
 	"fmt"
 	"io"
+	"math"
 	"net"
 	"os"
 	"runtime"
@@ -322,7 +323,13 @@ type ScriptIface struct {
 	AllowIO bool
 	// Hook, if set, is called for ops the generic interpreter does not know.
 	Hook func(ctx context.Context, c *varlink.Call, op Op) (OpResult, error)
+	// descLater, once set, is what the description getter returns from then on (an application that edits its
+	// text after registration; the service must keep reporting the text it was given at registration).
+	descLater atomic.Pointer[string]
 }
+
+// EditDescription makes the getter return another text from now on.
+func (s *ScriptIface) EditDescription(text string) { s.descLater.Store(&text) }
 
 // ErrHandlerFail is what a script's "fail" action returns.
 var ErrHandlerFail = errors.New("scripted handler failure")
@@ -412,6 +419,9 @@ func (s *ScriptIface) VarlinkDispatch(ctx context.Context, c varlink.Call, metho
 			params = map[string]interface{}{}
 		case "typed":
 			params = &scriptTyped{A: 7, S: "x"}
+		case "nan":
+			// a value that has no JSON encoding: the reply attempt must be refused (reported to the handler) with nothing written
+			params = map[string]interface{}{"x": math.NaN()}
 		}
 		switch op.Op {
 		case "reply":
@@ -444,7 +454,7 @@ func (s *ScriptIface) VarlinkDispatch(ctx context.Context, c varlink.Call, metho
 		}
 		res.Err = errStr(err)
 		record(res)
-		if op.Ret {
+		if op.Ret && op.Go != "nan" { // (what a oneway call reports for unencodable parameters is not fixed: never return on it)
 			return finish(err)
 		}
 	}
@@ -487,7 +497,12 @@ func (s *ScriptIface) doIO(ctx context.Context, c *varlink.Call, op Op) (res OpR
 func (s *ScriptIface) VarlinkGetName() string { return s.Name }
 
 // VarlinkGetDescription implements the dispatcher interface.
-func (s *ScriptIface) VarlinkGetDescription() string { return s.Desc }
+func (s *ScriptIface) VarlinkGetDescription() string {
+	if p := s.descLater.Load(); p != nil {
+		return *p
+	}
+	return s.Desc
+}
 
 // ---------------------------------------------------------------------------
 // service harness on the fake listener
@@ -540,7 +555,7 @@ func (sv *Svc) Stop(bound time.Duration) (error, bool) {
 func (sv *Svc) WaitActive(n int64, bound time.Duration) bool {
 	dl := time.Now().Add(bound)
 	for {
-		if sv.S.VerifActiveConnections() == n {
+		if activeConns(sv.S) == n {
 			return true
 		}
 		if time.Now().After(dl) {
@@ -671,4 +686,14 @@ func indexByte(b []byte, c byte) int {
 		}
 	}
 	return -1
+}
+
+// activeConns reads the service's count of open connections through the overlay accessor. When a change to the
+// library has moved the accounting somewhere the accessor cannot find, the run is inconclusive (HARNESS), not a finding.
+func activeConns(s *varlink.Service) int64 {
+	n := s.VerifActiveConnections()
+	if n < 0 {
+		panic("HARNESS: the service's connection accounting could not be located by the white-box accessor (field renamed?)")
+	}
+	return n
 }
